@@ -19,7 +19,7 @@ RULE = ('cases: add_/sub_/mul_/div_/pow_/gt_/ge_/lt_/le_ on 2 operands, each a f
         'df_mean operands multiples of 12), so float and exact integer arithmetic agree; a non-integer result is observed as its '
         'float.hex() and can never match the model. Observed: kind, index, columns, every cell; compared in Coq with the model '
         'M_tsops on the alignment model M_align; the oracle recomputes the result from the statement (Python sets + Fractions). '
-        'non-trivial = at least two timeseries operands with different, overlapping indices, or a zero divisor; distinct by input')
+        'Varied in kind: b omitted, f(a, b) call form, scalar types int / float / np.float64 / np.int64, int-dtype operands, spellings, long / integer column names, 1 us .. 1 day ticks and 1900 / 2250 origins, 120-250-row series; df_std is checked by the oracle only (1e-9). non-trivial = at least two timeseries operands with different, overlapping indices, or a zero divisor; distinct by input')
 EXPLANATION = ('theorems C08_* (coq/props/C08.v) hold for every cell operation opc (a Section parameter), every pair/list of series, every '
                'pair of multi-column DataFrames and every index / column policy: result index = intersection/union (first/last), result '
                'columns = intersection/union (first/last) of the column sets, result[t, x] = opc a[t, x] b[t, x] with NaN where an operand '
@@ -100,9 +100,18 @@ def canon_result(r, any_multi):
     return o
 
 def run_case(case):
+    c03.set_axis(case)
     try:
         any_multi = any('F' in l and len(l['F']['cols']) > 1 for l in operand_leaves(case))
-        kw = dict(join=case['how'], method=case['method'], columns=case['columns'])
+        kw = dict(join=c03.spelled(case, 'how', case['how']), method=c03.spelled(case, 'method', case['method']),
+                  columns=c03.spelled(case, 'columns', case['columns']))
+        def split(xs):          # min_(a, b) / df_sum(a, b): the operands given as two arguments instead of one list
+            k = case.get('split')
+            objs = [c03.build(l, []) for l in xs]
+            if not k or k >= len(objs):
+                return (objs,)
+            one = lambda l: l[0] if len(l) == 1 else l
+            return (one(objs[:k]), one(objs[k:]))
         if case['kind'] == 'op':
             f = getattr(P, case['op'] + '_')
             r = f(build_operand(case['a']), build_operand(case['b']), **kw)
@@ -111,9 +120,11 @@ def run_case(case):
                 if canon_result(r2, any_multi) != canon_result(r, any_multi):
                     return 'ok', ['NOT-COMMUTATIVE', canon_result(r, any_multi), canon_result(r2, any_multi)]
         elif case['kind'] == 'minmax':
-            r = getattr(P, case['op'] + '_')([c03.build(l, []) for l in case['xs']], **kw)
+            r = getattr(P, case['op'] + '_')(*split(case['xs']), **kw)
         else:
-            r = getattr(P, 'df_' + case['agg'])([c03.build(l, []) for l in case['xs']], **kw)
+            r = getattr(P, 'df_' + case['agg'])(*split(case['xs']), **kw)
+            if case['agg'] == 'std':         # not an exact-integer quantity: cells observed as float.hex strings
+                return 'ok', c03.canon(r, [], lambda v: 'NaN' if float(v) != float(v) else float(v).hex())
         return 'ok', canon_result(r, any_multi)
     except Exception as e:
         n = type(e).__name__
@@ -275,6 +286,10 @@ def expect_agg(case):
     def f(cells):
         vals = [c for c in cells if c is not None]      # NaN operands are skipped
         if case['agg'] == 'count': return len(vals)
+        if case['agg'] == 'std':                         # biased std of the non-NaN operands, NaN when fewer than two
+            if len(vals) < 2: return None
+            mean = Fraction(sum(vals), len(vals))
+            return Fraction(sum(v * v for v in vals), len(vals)) - mean * mean      # the variance; compared after sqrt
         if not vals: return None                         # NaN where no operand has data
         return sum(vals) if case['agg'] == 'sum' else Fraction(sum(vals), len(vals))
     return expect_cellwise(xs, C, f)
@@ -288,10 +303,28 @@ def jc(l):
     if 'S' in l:
         return ['S', [t for t, _ in l['S']], [c(v) for _, v in l['S']]]
     if 'F' in l:
-        f = l['F']; order = sorted(range(len(f['cols'])), key=lambda i: f['cols'][i])
+        f = l['F']; order = sorted(range(len(f['cols'])), key=lambda i: colcode(f['cols'][i]))
         codes = [colcode(f['cols'][i]) for i in order] if len(order) != 1 else [0]
         return ['F', list(f['idx']), codes, [[c(r[i]) for r in f['rows']] for i in order]]
     return ['N', c(l['N'])]
+
+def std_diff(exp, obs):
+    """exp carries exact variances, obs float.hex cells: same shape, NaN in the same cells, sqrt(variance) within 1e-9"""
+    if not isinstance(obs, list) or exp[:-1] != obs[:-1]:
+        return 'df_std: index / columns differ: expected %s got %s' % (json.dumps(exp[:-1])[:150], json.dumps(obs[:-1])[:150])
+    flat = lambda x: [v for r in x for v in (flat(r) if isinstance(r, list) else [r])] if isinstance(x, list) else [x]
+    e, o = flat(exp[-1]), flat(obs[-1])
+    if len(e) != len(o):
+        return 'df_std: %d cells expected, %d found' % (len(e), len(o))
+    for a, b in zip(e, o):
+        if (a == 'NaN') != (b == 'NaN'):
+            return 'df_std: NaN expected exactly where fewer than two operands have data: expected %s got %s' % (a, b)
+        if a != 'NaN':
+            var = float.fromhex(a[2:]) if isinstance(a, str) else float(a)
+            got = float.fromhex(b)
+            if abs(got - math.sqrt(max(var, 0.0))) > 1e-9 * (1 + abs(got)):
+                return 'df_std: expected sqrt(%s) got %s' % (var, got)
+    return None
 
 def impl(case):
     status, obs = run_case(case)
@@ -301,6 +334,8 @@ def impl(case):
         return {'status': status, 'obs': obs, 'viol': None, 'harness_error': 'oracle: %s %s' % (type(e).__name__, e)}
     viol = None
     name = (case.get('op') or 'df_' + case['agg'])
+    if case.get('agg') == 'std' and status == 'ok':
+        return {'status': status, 'obs': obs, 'viol': std_diff(exp, obs)}
     if status != 'ok':
         viol = '%s raised %s on valid operands' % (name, status)
     elif obs and obs[0] == 'NOT-COMMUTATIVE':
@@ -454,7 +489,54 @@ def gen_cases(rng, tier):
             xs.insert(rng.randrange(len(xs) + 1), {'N': gen_val(rng, role, 0.3)})
         cases.append({'kind': 'agg', 'agg': g, 'xs': xs, 'how': rng.choice(['oj', 'oj', 'oj', 'ij']),
                       'method': rng.choice([None, None, None, 'ffill']), 'columns': rng.choice(['oj', 'oj', 'ij'])})
-    return cases
+    for _ in range(100 if q else 1500):                   # add_ / mul_ of ONE list (b omitted)
+        n = rng.choice([1, 2, 3, 4])
+        xs = gen_operands(rng, n, ['int'] * n, rng.choice(['none', 'none', 'mixed', 'all']))
+        for l in xs:                                      # keep a common column so that no intermediate result is the empty Series
+            if 'F' in l and len(l['F']['cols']) > 1 and 'a' not in l['F']['cols']:
+                l['F']['cols'] = ['a'] + l['F']['cols'][1:]
+        if rng.random() < 0.3:
+            xs.insert(rng.randrange(len(xs) + 1), {'N': gen_val(rng, 'int', 0.1)})
+        cases.append({'kind': 'op', 'op': rng.choice(['add', 'mul']), 'a': {'many': xs}, 'b': None, 'how': rng.choice(['ij', 'oj', 'lj', 'rj']),
+                      'method': rng.choice([None, None, 'ffill', 'bfill']), 'columns': rng.choice(['ij', 'oj'])})
+    for _ in range(8 if q else 80):                       # long series (120-250 rows)
+        pool = list(range(300))
+        op = rng.choice(['add', 'sub', 'mul', 'div', 'gt'])
+        ra, rb = ('num64', 'den') if op == 'div' else ('int', 'int')
+        a = {'S': [[t, gen_val(rng, ra, 0.2)] for t in sorted(rng.sample(pool, rng.randrange(120, 251)))]}
+        b = {'S': [[t, gen_val(rng, rb, 0.2)] for t in sorted(rng.sample(pool, rng.randrange(120, 251)))]}
+        cases.append({'kind': 'op', 'op': op, 'a': a, 'b': b, 'how': rng.choice(['ij', 'oj']), 'method': rng.choice([None, 'ffill']), 'columns': 'ij'})
+        xs = [a, {'S': [[t, gen_val(rng, 'twelve', 0.3)] for t, _ in b['S']]}]
+        cases.append({'kind': 'agg', 'agg': rng.choice(['sum', 'count']), 'xs': [xs[0] if op != 'div' else xs[1], xs[1]], 'how': 'oj', 'method': None, 'columns': 'oj'})
+    for _ in range(60 if q else 800):                     # df_std (in observe_at; not an integer quantity: oracle only, 1e-9)
+        n = rng.choice([1, 2, 3, 4])
+        xs = gen_operands(rng, n, ['int'] * n, rng.choice(['none', 'none', 'all']))
+        cases.append({'kind': 'agg', 'agg': 'std', 'xs': xs, 'how': rng.choice(['oj', 'oj', 'ij']), 'method': None, 'columns': 'oj', 'nomodel': True})
+    return [decorate(rng, c) for c in cases]
+
+def decorate(rng, case):
+    """kinds of input the plain streams do not reach: tick length / origin, spellings, scalar types, int dtype, names, a/b split"""
+    c = json.loads(json.dumps(case))
+    if rng.random() < 0.35:
+        c['unit'] = rng.choice([3600 * 10**6, 1, 37000001, 10**6, c03.DAYUS])
+        c['d0'] = rng.choice(['1900-01-01', '2020-02-29T13:45:10.000123', '2250-12-31', '2020-01-01'])
+    if rng.random() < 0.3:
+        sp = {'how': rng.choice(c03.HOW_SPELL[c['how'][0]]), 'columns': rng.choice(c03.HOW_SPELL[c['columns'][0]])}
+        if c.get('method'):
+            sp['method'] = rng.choice(c03.METHOD_SPELL[c['method']])
+        c['spell'] = sp
+    lvs = operand_leaves(c)
+    ren = rng.choice([c03.LONGCOLS, c03.INTCOLS]) if rng.random() < 0.2 else None
+    for l in lvs:
+        if 'N' in l:
+            l['nk'] = rng.choice(['float', 'float', 'int', 'np.float64', 'np.int64'])
+        elif rng.random() < 0.15:
+            l['dt'] = 'int'                               # takes effect only when the operand has no NaN
+        if ren and 'F' in l:
+            l['F']['cols'] = [ren.get(x, x) for x in l['F']['cols']]
+    if c['kind'] in ('minmax', 'agg') and len(c['xs']) > 1 and rng.random() < 0.3:
+        c['split'] = rng.randrange(1, len(c['xs']))
+    return c
 
 # ------------------------------------------------------------------ shrinking
 def shrink(case):
@@ -492,8 +574,8 @@ LEVEL_TEXT = ('machine-checked Coq theorems (C08_*, for every cell operation, ev
               '(exact-integer instances) is compared inside Coq with add_/sub_/mul_/div_/pow_/comparisons/min_/max_/df_sum/df_mean/df_count of '
               'the current tree on thousands of generated operand tuples, and a property-level oracle recomputes every cell with Fractions')
 LEVEL_NOTE = ('trusted: Coq kernel/vm_compute; modelled not verified: pandas/numpy float arithmetic on aligned operands (compared exactly on '
-              'integer-valued data), DataFrame construction from a dict of Series; builds on the C03 alignment model. Mixed Series x DataFrame '
-              'operands, single-column frames and df_sum/df_mean/df_count on DataFrames are covered by the same model through the '
-              'correspondence only (theorems are stated for Series lists and for pairs of multi-column frames). div_(x, 0) with a scalar '
+              'integer-valued data), DataFrame construction from a dict of Series; builds on the C03 alignment model. min_/max_ on DataFrames and '
+              'the no-proper-frame single-column branch are covered by the same model through the correspondence only; mixed operands and '
+              'df_sum/df_mean/df_count on DataFrames have theorems (C08_mixed_operands, C08_sum_mean_count_frames). div_(x, 0) with a scalar '
               'zero divisor was repaired (fixes/C08.patch; C08_div_scalar_zero_pinned_refuted records the old behaviour)')
 TECHNIQUE = 'Coq proof (induction over association lists, generic in the cell operation) + differential correspondence in vm_compute + exact Fraction oracle'
